@@ -169,6 +169,12 @@ def eval_writer_case(spec, wname, pre=None):
     were called on them) | "comma" (formatted with the SRT separator)"""
     out = []
     w = _cls(wname)()
+    kw = {}
+    if spec and spec[0] == "@force":
+        # the DFXP writers are asked for a language the set does not have (documented: "only if available")
+        spec = spec[1:]
+        if "DFXP" in wname:
+            kw = {"force": "xx-XX"}
     cs_in = build_set(spec)
     if pre:
         for l in cs_in.get_languages():
@@ -180,7 +186,7 @@ def eval_writer_case(spec, wname, pre=None):
                 else:
                     c.format_start(msec_separator=",")
                     c.format_end(msec_separator=",")
-    doc = w.write(cs_in)
+    doc = w.write(cs_in, **kw)
     rname = WRITER_READER[wname]
     try:
         import pycaption
@@ -222,6 +228,8 @@ def writer_specs(tier):
     for t in TEXT_TOKENS[:3]:
         for pre in ("@shift-", "@shift0"):
             specs.append([pre, [t], ["later", "two rows"], ["last"]])
+    for t in TEXT_TOKENS[:3]:
+        specs.append(["@force", [t], ["second"]])
     # captions of one to nine rows
     for n in range(3, 10):
         specs.append([[f"row {k:02d} of a tall caption" for k in range(n)]])
